@@ -11,6 +11,7 @@
                     over m (ideal signatures: unforgeability, one meaning per byte string). *)
 From Coq Require Import List String Bool NArith ZArith.
 Import ListNotations.
+From VF Require C16.Model.
 From VF Require Import common.Json gen.Gen_C07 C07.Model C07.Proofs C07.ProofsRT C07.StrictModel C07.ProofsStrict C07.ParseModel C07.ProofsParse.
 Open Scope string_scope.
 Open Scope list_scope.
@@ -278,6 +279,58 @@ Proof.
   inversion E. reflexivity.
 Qed.
 Print Assumptions verified_document_exact_partial.
+
+(* ---- JWT ENVELOPES AROUND A DOCUMENT WITH AN EMBEDDED PROOF (unsecured JWT, alg none: the embedded proof is the
+        only protection).  The registered claims are applied to the claim object FIRST (iss -> holder / issuer id,
+        jti -> id, nbf / iat / exp -> dates: refine_vp here, C16's `refine` for credentials) and the embedded-proof
+        check runs on the result, which is also what the caller gets.  So, under the guard of
+        verified_document_exact_partial, an accepted enveloped document IS the signed one and the envelope cannot
+        contradict it: a non-empty iss / jti equals the signed holder / id. ---- *)
+Theorem jwt_envelope_cannot_override_vp :
+  forall (canon : json -> option N) (pv_dec : string -> string -> dec) (seg_dec : string -> dec)
+         (resolve : string -> string -> option N) (accepts : string -> bool),
+    (forall a b n, canon a = Some n -> canon b = Some n -> a = b) ->
+    forall (signed_by : N -> msg -> Prop),
+    (forall t ty k m, pv_dec t ty = DSig (SBy k m) -> signed_by k m) ->
+    (forall s k m, seg_dec s = DSig (SBy k m) -> signed_by k m) ->
+    forall iss jti vp p k d0 c,
+    (forall m, signed_by k m -> Some m = sign_message canon (fun j => Some j) false excluded_keys d0 c) ->
+    key_of resolve p = Some k ->
+    verify_one canon (fun j => Some j) pv_dec seg_dec resolve accepts false excluded_keys (refine_vp iss jti vp) p = true ->
+    without_proof (refine_vp iss jti vp) = without_proof d0 /\
+    (nonempty iss = true -> lookup d0 "holder" = Some (JStr iss)) /\
+    (nonempty jti = true -> lookup d0 "id" = Some (JStr jti)).
+Proof.
+  intros canon pv_dec seg_dec resolve accepts Hinj signed_by Hpv Hseg iss jti vp p k d0 c Honly Hk Hv.
+  pose proof (verified_document_exact_partial canon pv_dec seg_dec resolve accepts Hinj signed_by Hpv Hseg
+                (refine_vp iss jti vp) p k d0 c Honly Hk Hv) as E.
+  split; [exact E|]. unfold without_proof in E. split; intro H.
+  - rewrite <- (lookup_remove_key "proof" d0 "holder" eq_refl), <- E, (lookup_remove_key "proof" _ "holder" eq_refl).
+    unfold refine_vp. rewrite H. destruct (nonempty jti).
+    + rewrite lookup_set_key_other by reflexivity. apply lookup_set_key_same.
+    + apply lookup_set_key_same.
+  - rewrite <- (lookup_remove_key "proof" d0 "id" eq_refl), <- E, (lookup_remove_key "proof" _ "id" eq_refl).
+    unfold refine_vp. rewrite H. apply lookup_set_key_same.
+Qed.
+Print Assumptions jwt_envelope_cannot_override_vp.
+
+Theorem jwt_envelope_cannot_override_vc :
+  forall (canon : json -> option N) (pv_dec : string -> string -> dec) (seg_dec : string -> dec)
+         (resolve : string -> string -> option N) (accepts : string -> bool),
+    (forall a b n, canon a = Some n -> canon b = Some n -> a = b) ->
+    forall (signed_by : N -> msg -> Prop),
+    (forall t ty k m, pv_dec t ty = DSig (SBy k m) -> signed_by k m) ->
+    (forall s k m, seg_dec s = DSig (SBy k m) -> signed_by k m) ->
+    forall (fmt : Z -> string) (claims : C16.Model.jclaims) p k d0 c,
+    (forall m, signed_by k m -> Some m = sign_message canon (fun j => Some j) false excluded_keys d0 c) ->
+    key_of resolve p = Some k ->
+    verify_one canon (fun j => Some j) pv_dec seg_dec resolve accepts false excluded_keys (C16.Model.refine fmt claims) p = true ->
+    without_proof (C16.Model.refine fmt claims) = without_proof d0.
+Proof.
+  intros canon pv_dec seg_dec resolve accepts Hinj signed_by Hpv Hseg fmt claims p k d0 c Honly Hk Hv.
+  exact (verified_document_exact_partial canon pv_dec seg_dec resolve accepts Hinj signed_by Hpv Hseg _ p k d0 c Honly Hk Hv).
+Qed.
+Print Assumptions jwt_envelope_cannot_override_vc.
 
 (* ---- THE TYPED OBJECT.  Full statement: the member the typed Credential / Presentation holds is the member the
         proof check saw.  REFUTED (known finding case-variant-member-overrides-signed-member; corpus witness
